@@ -24,6 +24,7 @@ FIELD_PROBLEMS = ("Poisson1D", "Heat1D", "Abel1D")
 OBJ_TYPES = ("objC1D", "objKL", "objStep", "objUser")
 FPARAMS = {"n_steps2": {"n_steps": 2}, "num_modes2": {"num_modes": 2}, "trunc2": {"trunc_term": 2}}
 SEEN = {}                # (problem, field_type form, mapped) -> replayed behaviours (vacuity guard)
+STATS = {}               # oracle of the forward comparisons -> count
 
 _USER_CLS = []
 
@@ -275,7 +276,11 @@ def check_field(ctx, c, tp, extras, key, case, quiet, scripted, same_geom):
     twin = None
     for i, (q, fld) in enumerate(zip(pars, fields)):
         if p == "Poisson1D" and not np.all(fld > 0):
+            STATS["skipped: conductivity not positive"] = STATS.get("skipped: conductivity not positive", 0) + 1
             continue            # the Poisson operator is defined for a positive conductivity field only
+        oracle = "spec: exact rational solution" if use_spec else ("spec: Abel weights applied to the field" if A is not None else "untouched twin operator")
+        oracle += " / " + ("spec field" if ref is None and f["fknown"] and (f["basedoc"] or f["base"]["own"] == "user") else "untouched reference geometry")
+        STATS[oracle] = STATS.get(oracle, 0) + 1
         if use_spec:
             exp = _qv(f["fwd"][i])
         elif A is not None:
@@ -314,6 +319,7 @@ def check_field(ctx, c, tp, extras, key, case, quiet, scripted, same_geom):
 def check_coverage(ctx):
     """every problem x form of field_type (none / string / Geometry object) x (map given or not) was replayed"""
     from cuqiverif.core import MachineryError
+    ctx.observe("field_forward_comparisons_by_oracle", dict(STATS))
     ctx.observe("field_option_behaviours_replayed", {"%s/%s/%s" % (k[0], k[1], "map" if k[2] else "nomap"): v for k, v in sorted(SEEN.items())})
     missing = [(p, form, m) for p in FIELD_PROBLEMS for form in ("none", "string", "object") for m in (False, True)
                if not SEEN.get((p, form, m))]
